@@ -10,6 +10,7 @@ import (
 	"encoding/hex"
 	"encoding/json"
 	"fmt"
+	"math"
 	"sort"
 	"strconv"
 	"strings"
@@ -19,6 +20,29 @@ import (
 	"github.com/btcsuite/btcd/btcec/v2/schnorr"
 	"github.com/high-moctane/mocrelay"
 )
+
+// TS maps abstract timestamps to concrete ones, order-preserving: the abstract values around
+// +-1,000,000 stand for the two ends of the int64 range (TLC integers are 32 bit).
+func TS(t int64) int64 {
+	switch {
+	case t >= 900000 && t <= 1000000:
+		return math.MaxInt64 - (1000000 - t)
+	case t <= -900000 && t >= -1000000:
+		return math.MinInt64 + (t + 1000000)
+	}
+	return t
+}
+
+// AbsTS is the inverse of TS.
+func AbsTS(c int64) int64 {
+	switch {
+	case c >= math.MaxInt64-100000:
+		return 1000000 - (math.MaxInt64 - c)
+	case c <= math.MinInt64+100000:
+		return (c - math.MinInt64) - 1000000
+	}
+	return c
+}
 
 type Tag struct {
 	Name string `json:"name"`
@@ -255,7 +279,7 @@ func (c *Conc) Event(e Event, content string) *mocrelay.Event {
 	return &mocrelay.Event{
 		ID:        c.FakeID(e.ID),
 		Pubkey:    c.Pubkey(e.Author),
-		CreatedAt: e.TS,
+		CreatedAt: TS(e.TS),
 		Kind:      e.Kind,
 		Tags:      c.Tags(e.Tags),
 		Content:   content,
@@ -332,7 +356,7 @@ func writeJSONString(b *strings.Builder, s string) {
 func (c *Conc) SignedEvent(e Event, content string) *mocrelay.Event {
 	kp := c.key(e.Author)
 	tags := c.Tags(e.Tags)
-	ser := Canonical(kp.pub, e.TS, e.Kind, tags, content)
+	ser := Canonical(kp.pub, TS(e.TS), e.Kind, tags, content)
 	h := sha256.Sum256(ser)
 	sig, err := schnorr.Sign(kp.priv, h[:])
 	if err != nil {
@@ -341,7 +365,7 @@ func (c *Conc) SignedEvent(e Event, content string) *mocrelay.Event {
 	id := hex.EncodeToString(h[:])
 	c.BindID(e.ID, id)
 	return &mocrelay.Event{
-		ID: id, Pubkey: kp.pub, CreatedAt: e.TS, Kind: e.Kind, Tags: tags, Content: content,
+		ID: id, Pubkey: kp.pub, CreatedAt: TS(e.TS), Kind: e.Kind, Tags: tags, Content: content,
 		Sig: hex.EncodeToString(sig.Serialize()),
 	}
 }
@@ -396,10 +420,10 @@ func (c *Conc) FilterJSON(f Filter) []byte {
 		obj["#"+n] = cv
 	}
 	if f.Since.P {
-		obj["since"] = f.Since.V
+		obj["since"] = TS(f.Since.V)
 	}
 	if f.Until.P {
-		obj["until"] = f.Until.V
+		obj["until"] = TS(f.Until.V)
 	}
 	if f.Limit.P {
 		obj["limit"] = f.Limit.V
